@@ -31,6 +31,7 @@ import (
 	"github.com/Oneledger/protocol/data/ons"
 	"github.com/Oneledger/protocol/data/rewards"
 	"github.com/Oneledger/protocol/serialize"
+	"github.com/Oneledger/protocol/storage"
 	abci "github.com/tendermint/tendermint/abci/types"
 	"github.com/tendermint/tendermint/crypto/ed25519"
 	tmrpccore "github.com/tendermint/tendermint/rpc/core"
@@ -442,4 +443,21 @@ func signRaw(raw action.RawTx, signers ...Key) []byte {
 
 func signTx(typ action.Type, data []byte, gas int64, memo string, signers ...Key) []byte {
 	return signRaw(action.RawTx{Type: typ, Data: data, Fee: feeOf(gas), Memo: memo}, signers...)
+}
+
+// View returns the deliver state as the next consensus call would see it: the committed tree
+// overlaid with the block cache (uncommitted writes of this block; delete markers remove keys).
+// Only meaningful at ABCI call boundaries (no transaction session open).
+func (r *Replica) View() map[string]string {
+	m := r.Dump()
+	tomb := string(storage.TOMBSTONE)
+	r.A.VerifDeliver().GetGasStore().GetIterable().Iterate(func(k, v []byte) bool {
+		if string(v) == tomb {
+			delete(m, string(k))
+		} else {
+			m[string(k)] = string(v)
+		}
+		return false
+	})
+	return m
 }
